@@ -130,7 +130,7 @@ func checkRun(c runCase) (h.Info, error) {
 	if c.Workers < 1 || c.Procs < 1 {
 		return h.Info{}, fmt.Errorf("PRECONDITION: workers/procs")
 	}
-	attainable := c.Target != "unattainable"
+	attainable := c.Target != "unattainable" && c.Target != "unattainable-max"
 	if !attainable && c.Cancel == "never" {
 		return h.Info{}, fmt.Errorf("PRECONDITION: unattainable target without cancellation")
 	}
@@ -149,7 +149,7 @@ func checkRun(c runCase) (h.Info, error) {
 // mineAndJudge runs one Mine call as described by c (GOMAXPROCS is the caller's business) and checks
 // termination and the result contract.
 func mineAndJudge(c runCase) (time.Duration, error) {
-	attainable := c.Target != "unattainable"
+	attainable := c.Target != "unattainable" && c.Target != "unattainable-max"
 	var info h.Info
 
 	ell := float64(len(c.Data) + 8)
@@ -167,6 +167,8 @@ func mineAndJudge(c runCase) (time.Duration, error) {
 		t1, t2 = math.Pow(3, 8)/ell, uint64(math.Pow(3, 8)/ell)
 	case "unattainable":
 		t1, t2 = math.Pow(3, 60)/ell, math.MaxUint64/uint64(ell)-1
+	case "unattainable-max": // the largest target of the domain: len * target = 2^64-1 exactly when len divides it
+		t1, t2 = math.Pow(3, 60)/ell, math.MaxUint64/uint64(ell)
 	default:
 		return 0, fmt.Errorf("PRECONDITION: target class")
 	}
@@ -382,7 +384,7 @@ func checkSeq(c seqCase) (h.Info, error) {
 	afterCancelled := false
 	var total time.Duration
 	for i, st := range c.Steps {
-		if st.Target == "unattainable" && st.Cancel == "never" {
+		if (st.Target == "unattainable" || st.Target == "unattainable-max") && st.Cancel == "never" {
 			return info, fmt.Errorf("PRECONDITION: unattainable target without cancellation")
 		}
 		if i > 0 && c.Steps[i-1].Cancel != "never" && st.Cancel == "never" {
@@ -503,7 +505,12 @@ func genRun(t *rapid.T) runCase {
 		c.Data = h.BytesN(t, "ldata", h.OneOf(t, "ldlen", 100, 300, 1000, 2000, 5000))
 	}
 	c.Target = []string{"every-lane", "easy", "moderate", "unattainable"}[h.Pick(t, "target", 3, 3, 2, 3)]
-	if c.Target == "unattainable" {
+	if c.Target == "unattainable" && h.Pick(t, "maxprod", 3, 1) == 1 {
+		// message lengths that divide 2^64-1 = 3*5*17*257*641*65537*6700417, with the quotient as target
+		c.Target = "unattainable-max"
+		c.Data = h.BytesN(t, "mdata", h.OneOf(t, "mlen", 15, 17, 51, 85, 255, 257, 641)-8)
+	}
+	if c.Target == "unattainable" || c.Target == "unattainable-max" {
 		c.Cancel = []string{"before", "delay", "race", "deadline"}[h.Pick(t, "cancel", 1, 3, 2, 2)]
 	} else {
 		c.Cancel = []string{"never", "before", "delay", "race", "deadline"}[h.Pick(t, "cancel", 2, 1, 2, 4, 1)]
@@ -545,7 +552,7 @@ func TestRuns(t *testing.T) {
 		Prop: "C13", Name: subName, N: 320,
 		Gen: genRun, Check: checkRun,
 		Require: []string{"v1/every-lane/race", "v2/every-lane/race", "v1/unattainable/delay", "v2/unattainable/delay", "v1/moderate/race", "v2/moderate/race", "v1/easy/before", "v2/easy/never"},
-		Rule:    "configurations {v1, v2} x workers {1,2,3,4,5,6,7,8,12,16,32,64} x GOMAXPROCS {1,2,4,16} x data {0..40 bytes, one in six 100..5000 bytes} x target {every lane qualifies, easy, moderate (~3^8 hashes), unattainable} x cancellation {never, before the call, after 0..5 ms, racing with the find after 0..3000 scheduler yields, by a context deadline} x context kind {context.WithCancel, context.Background (nil Done channel), a context type of the harness (lazily created Done channel; optionally yielding the processor inside Done and Err), a value-carrying grandchild, cancel-with-cause, a context with a deadline one hour away that is cancelled by its own cancel function or through its parent} x (v1) digest function {default, SHA-1, MD5, SHA-224, RIPEMD-160, SHA-256, BLAKE2s}; data handed over as the front part of a larger caller buffer whose tail another goroutine of the caller reads meanwhile (must stay untouched); (err == nil and Score >= target) or (cancellation error and ctx cancelled); returns within 45 s of cancellation (expected ms); no goroutine with a pkg/pow frame (nor a context-forwarding goroutine of a context derived inside Mine) alive 5 s after return; binary built with -race (any report is a violation); non-trivial = >= 2 workers and (cancellation used or every-lane target); distinct by configuration",
+		Rule:    "configurations {v1, v2} x workers {1,2,3,4,5,6,7,8,12,16,32,64} x GOMAXPROCS {1,2,4,16} x data {0..40 bytes, one in six 100..5000 bytes} x target {every lane qualifies, easy, moderate (~3^8 hashes), unattainable, the largest target of the domain (length x target = 2^64-1 exactly)} x cancellation {never, before the call, after 0..5 ms, racing with the find after 0..3000 scheduler yields, by a context deadline} x context kind {context.WithCancel, context.Background (nil Done channel), a context type of the harness (lazily created Done channel; optionally yielding the processor inside Done and Err), a value-carrying grandchild, cancel-with-cause, a context with a deadline one hour away that is cancelled by its own cancel function or through its parent} x (v1) digest function {default, SHA-1, MD5, SHA-224, RIPEMD-160, SHA-256, BLAKE2s}; data handed over as the front part of a larger caller buffer whose tail another goroutine of the caller reads meanwhile (must stay untouched); (err == nil and Score >= target) or (cancellation error and ctx cancelled); returns within 45 s of cancellation (expected ms); no goroutine with a pkg/pow frame (nor a context-forwarding goroutine of a context derived inside Mine) alive 5 s after return; binary built with -race (any report is a violation); non-trivial = >= 2 workers and (cancellation used or every-lane target); distinct by configuration",
 	})
 }
 
